@@ -139,3 +139,19 @@ Fixpoint select_honest (cf : config) (evs : list event) (k : conn) (b : bstate) 
         end
       else True
   end.
+
+(* ---------------------------------------------------------------------------------------------- *)
+(* every datagram the environment delivers is read                                                  *)
+(* ---------------------------------------------------------------------------------------------- *)
+
+(* the datagrams read from the socket, in order *)
+Fixpoint recvs (tr : list output) : list dgram :=
+  match tr with
+  | [] => []
+  | ORecv d :: tr' => d :: recvs tr'
+  | _ :: tr' => recvs tr'
+  end.
+
+(* what the socket held at the start plus what the consumed events delivered, in order *)
+Definition delivered (k : conn) (consumed : list event) : list dgram :=
+  k_buf k ++ flat_map ev_data consumed.
